@@ -19,7 +19,8 @@ RULE = ("Proof states = every prefix of the recorded proofs of library theorems 
         "ParameterQueryException (answered up to twice). Any other exception is 'fails outright' (reported only if the "
         "entry needed no harness-supplied parameter, or three different supplies all fail). On success: the gaps "
         "added are among the advertised _goal, an entry advertising no goals closes the selected gap and adds none, and "
-        "each advertised _fact is the statement of some line. Non-trivial: an entry advertising _goal or _fact that applied "
+        "each advertised _fact is the statement of some line (or, when the step asked for the instantiation of variables, "
+        "an advertised !x. B is matched by a line B[x := t]). Non-trivial: an entry advertising _goal or _fact that applied "
         "successfully; distinct by (theorem, prefix, gap, facts, entry).")
 ASSUMPTIONS = [
     "states are prefixes of recorded library proofs (the C13 walks exercise perturbed states for the editing invariants)",
@@ -178,7 +179,7 @@ def run_case(case, H):
                         break
                 except Exception as ex:
                     outcome = 'exception'
-                    detail = '%s: %s' % (type(ex).__name__, str(getattr(ex, 'str', ex))[:300])
+                    detail = '%s: %s' % (type(ex).__name__, harness.exc_text(ex))
                     break
             if outcome != 'exception':
                 break
@@ -219,13 +220,34 @@ def run_case(case, H):
                                 'gaps before %d after %d' % (len(before), len(after)))
                 nontrivial = True
             if adv_fact:
-                props = {prop_key(it.th.prop) for _, it in edit_lib.walk_items(final.prf) if it.th is not None}
+                lines = [it.th.prop for _, it in edit_lib.walk_items(final.prf) if it.th is not None]
+                props = {prop_key(t) for t in lines}
                 missing = [t for t in adv_fact if prop_key(t) not in props]
+                if missing and answered:
+                    # the step asked for the instantiation of the variables the advertisement quantifies over
+                    missing = [t for t in missing if not any(is_instance_of_forall(t, ln) for ln in lines)]
                 if missing:
                     H.violation('suggest:advertised-fact-missing:%s' % mname, sub, 'fact %s is not the statement of any line' % missing[0])
                 nontrivial = True
         H.case(sub, nontrivial, klass, key={'t': case['theory'], 'n': case['thm'], 'p': k, 'g': gid,
                                             'f': [edit_lib.id_str(p) for p in chosen], 'e': idx}, sample=nontrivial)
+
+
+def is_instance_of_forall(adv, line):
+    """line = body[x1 := t1, ...] for adv = !x1 ... xk. body (k >= 1)."""
+    from kernel.term import SVar
+    from logic import matcher
+    t, k = adv, 0
+    while t.is_forall():
+        t = t.arg.subst_bound(SVar('_c14_%d' % k, t.arg.var_T))
+        k += 1
+    if k == 0:
+        return False
+    try:
+        matcher.first_order_match(t, line)
+        return True
+    except Exception:
+        return False
 
 
 def supply_query_param(state, step, pname, gpos, variant):
